@@ -218,11 +218,11 @@ theorem hfHalfedges_range {edges : List (Nat × Nat)} {faces : List (List Nat)} 
       have := xor_one_div y
       omega
 
-/-- the distinct-vertex guard of the tet / hex `add_cell` overrides (64c6d58 / 7b999c9): with the cell's halffaces in
-    range and every stored face's halfedges in range, neither of its two unchecked accesses fails -/
-theorem spanCount_ok {edges : List (Nat × Nat)} {faces : List (List Nat)} {hfs : List Nat}
+/-- end points of all halfedges of the given halffaces: with the halffaces in range and every stored face's
+    halfedges in range, neither of the two unchecked accesses fails -/
+theorem cellEnds_ok {edges : List (Nat × Nat)} {faces : List (List Nat)} {hfs : List Nat}
     (hfa : ∀ f ∈ faces, ∀ x ∈ f, x < 2 * edges.length) (h : ∀ x ∈ hfs, x < 2 * faces.length) :
-    ∃ n, spanCount edges faces hfs = .ok n := by
+    ∃ ends, cellEnds edges faces hfs = .ok ends := by
   obtain ⟨ls, hls⟩ := mapM_ok_of_forall (f := hfHalfedges faces) hfs (fun x hx => hfHalfedges_ok (h x hx))
   have hrange : ∀ x ∈ ls.flatten, x < 2 * edges.length := by
     intro x hx
@@ -230,8 +230,45 @@ theorem spanCount_ok {edges : List (Nat × Nat)} {faces : List (List Nat)} {hfs 
     obtain ⟨a, _, ha⟩ := mapM_ok_mem_rev hfs ls hls l hl
     exact hfHalfedges_range hfa ha x hxl
   obtain ⟨ends, hends⟩ := mapM_ok_of_forall (f := heEnds edges) ls.flatten (fun x hx => heEnds_ok (hrange x hx))
+  unfold cellEnds
+  simp only [hls, bind, Except.bind]
+  exact ⟨ends, hends⟩
+
+/-- the distinct-vertex guard of the tet / hex `add_cell` overrides (64c6d58 / 7b999c9) -/
+theorem spanCount_ok {edges : List (Nat × Nat)} {faces : List (List Nat)} {hfs : List Nat}
+    (hfa : ∀ f ∈ faces, ∀ x ∈ f, x < 2 * edges.length) (h : ∀ x ∈ hfs, x < 2 * faces.length) :
+    ∃ n, spanCount edges faces hfs = .ok n := by
+  obtain ⟨ends, he⟩ := cellEnds_ok hfa h
   unfold spanCount
-  simp only [hls, hends, bind, Except.bind]
+  simp only [he, bind, Except.bind]
+  exact ⟨_, rfl⟩
+
+/-- the parallel-halfedge guard of the tetrahedral override (4614b67) -/
+theorem noParallel_ok {edges : List (Nat × Nat)} {faces : List (List Nat)} {hfs : List Nat}
+    (hfa : ∀ f ∈ faces, ∀ x ∈ f, x < 2 * edges.length) (h : ∀ x ∈ hfs, x < 2 * faces.length) :
+    ∃ b, noParallel edges faces hfs = .ok b := by
+  obtain ⟨ends, he⟩ := cellEnds_ok hfa h
+  unfold noParallel
+  simp only [he, bind, Except.bind]
+  exact ⟨_, rfl⟩
+
+theorem hfFroms_ok {edges : List (Nat × Nat)} {faces : List (List Nat)} {hf : Nat}
+    (hfa : ∀ f ∈ faces, ∀ x ∈ f, x < 2 * edges.length) (h : hf < 2 * faces.length) :
+    ∃ vs, hfFroms edges faces hf = .ok vs := by
+  obtain ⟨hes, hh⟩ := hfHalfedges_ok h
+  obtain ⟨ends, hends⟩ := mapM_ok_of_forall (f := heEnds edges) hes
+    (fun x hx => heEnds_ok (hfHalfedges_range hfa hh x hx))
+  unfold hfFroms
+  simp only [hh, hends, bind, Except.bind]
+  exact ⟨_, rfl⟩
+
+/-- the opposite-pairs guard of the checked hexahedral override (7800c85) -/
+theorem oppPairsDisjoint_ok {edges : List (Nat × Nat)} {faces : List (List Nat)} {l : List Nat}
+    (hfa : ∀ f ∈ faces, ∀ x ∈ f, x < 2 * edges.length) (h : ∀ x ∈ l, x < 2 * faces.length) :
+    ∃ b, oppPairsDisjoint edges faces l = .ok b := by
+  obtain ⟨vs, hvs⟩ := mapM_ok_of_forall (f := hfFroms edges faces) l (fun x hx => hfFroms_ok hfa (h x hx))
+  unfold oppPairsDisjoint
+  simp only [hvs, bind, Except.bind]
   exact ⟨_, rfl⟩
 
 /-- what `add_cell` may return: nothing, or a list of halffaces all below the bound -/
@@ -269,19 +306,32 @@ theorem addCell_safe (cfg : Cfg) (hx : HexOK cfg) {edges : List (Nat × Nat)} {f
     mapM_ok_of_forall hfs (fun x hx' => ⟨_, getU_ok (by have := h x hx'; omega)⟩)
   obtain ⟨fs, hfs'⟩ := hget
   obtain ⟨n, hn⟩ := spanCount_ok hfa h
+  obtain ⟨np, hnp⟩ := noParallel_ok hfa h
   have hnone : Safe (CellRes (2 * faces.length)) (pure none : R (Option (List Nat))) :=
     Safe.pure (by intro l hl; cases hl)
+  -- the guarded call of the checked hexahedral override, for any in-range list
+  have hguard : ∀ l : List Nat, (∀ x ∈ l, x < 2 * faces.length) →
+      Safe (CellRes (2 * faces.length))
+        (do if (← oppPairsDisjoint edges faces l) then baseAddCell cfg faces l else pure none) := by
+    intro l hl
+    obtain ⟨b, hb⟩ := oppPairsDisjoint_ok hfa hl
+    simp only [hb, bind, Except.bind]
+    cases b with
+    | true => exact baseAddCell_safe cfg hl
+    | false => exact hnone
   unfold addCell
   split
   · exact baseAddCell_safe cfg h
   · split
     · exact hnone
-    · simp only [hfs', hn, bind, Except.bind]
+    · simp only [hfs', hn, hnp, bind, Except.bind]
       split
       · exact hnone
       · split
         · exact hnone
-        · exact baseAddCell_safe cfg h
+        · split
+          · exact hnone
+          · exact baseAddCell_safe cfg h
   · split
     · exact hnone
     · rename_i hlen
@@ -294,7 +344,7 @@ theorem addCell_safe (cfg : Cfg) (hx : HexOK cfg) {edges : List (Nat × Nat)} {f
         · split
           · exact baseAddCell_safe cfg h
           · split
-            · exact baseAddCell_safe cfg h
+            · exact hguard hfs h
             · exact hnone
             · rename_i l hl
               have hq : ∀ x ∈ hfs, ∃ f, faces[x / 2]? = some f ∧ f.length = 4 := by
@@ -304,8 +354,8 @@ theorem addCell_safe (cfg : Cfg) (hx : HexOK cfg) {edges : List (Nat × Nat)} {f
                 simp only [Bool.not_eq_true, Bool.not_eq_false'] at hquad
                 have := List.all_eq_true.mp hquad f hf
                 simpa using this
-              exact baseAddCell_safe cfg
-                (fun x hx' => h x (hx faces hfs l (by simpa using hlen) hq hl x hx'))
+              -- `HexOK` puts the re-ordered list in range *before* the guard reads its faces
+              exact hguard l (fun x hx' => h x (hx faces hfs l (by simpa using hlen) hq hl x hx'))
             · exact Safe.unmodelled
 
 theorem addCells_safe (cfg : Cfg) (hx : HexOK cfg) {edges : List (Nat × Nat)} {faces : List (List Nat)}
